@@ -35,6 +35,17 @@ Section Qualifies.
   Definition qualifies (s : str) : bool := qualifies_with qualify_conds s.
 End Qualifies.
 
+(** the documented syntax rule, written out with fixed constants (the specification the
+    implementation's answers are judged by; [qualifies] above is what the source says today) *)
+Definition reject_chars : str :=
+  [40; 41; 91; 93; 123; 125; 60; 62; 32; 9; 10; 34; 92; 33; 64; 35; 36; 37; 94; 38; 124; 59; 39; 43; 61].
+Definition qual_spec (is_space : N -> bool) (s : str) : bool :=
+  negb (forallb is_space s) &&
+  (negb (has_prefix [46] s) &&
+   (negb (has_suffix [46] s) &&
+    ((negb (contains [42] s) || has_prefix [42; 46] s || str_eqb s [42]) &&
+     (negb (existsb (fun c => mem_c c reject_chars) s) && true)))).
+
 Definition tbl_space (tbl : list N) (c : N) : bool :=
   if c <? 128 then ascii_space c else existsb (N.eqb c) tbl.
 
@@ -158,7 +169,9 @@ Inductive result :=
 Record hello := Hello {
   h_name : option name;    (* getNameFromClientHello(hello): None = error (oracle: idna) *)
   h_hit : option N;        (* certificate selected from the cache by getCertificateFromCache (oracle) *)
-  h_issue_ok : bool        (* outcome of Issuer.Issue calls made during this handshake *)
+  h_issue_ok : bool;       (* outcome of Issuer.Issue calls made during this handshake *)
+  h_vanish : bool          (* the bundle this handshake loads is deleted (by a storage cleaner / another
+                              instance) right after it has been read *)
 }.
 
 (** What a piece of code does: the effects of the goroutine running it, in order, and the
@@ -335,7 +348,9 @@ Section WithSpace.
         | None => ([ELoad n; ELoad (wild n)], [], None, w)
         | Some (le, s) =>
             let c := as_loaded s in
-            let '(e, k, r, w') := maintenance (load_and_maintain f) (cache_add c w) h c held in
+            let key := match le with [_] => n | _ => wild n end in
+            let w0 := if h_vanish h && negb held then store_del key w else w in   (* once: not after an obtain *)
+            let '(e, k, r, w') := maintenance (load_and_maintain f) (cache_add c w0) h c held in
             (le ++ e, k,
              Some (match r with MCert x => MCert x | MCertErr x => MCert x | _ => MEmpty end), w')
         end
